@@ -103,7 +103,10 @@ def run_product(case):
         To, Ti, Tn = bo.trials_per_sample(), bi.trials_per_sample(), bn.trials_per_sample()
         viols = []
         if Tn != To * Ti:
-            viols.append(("C25/trial-count", "Nest has %d trials, outer %d x inner %d" % (Tn, To, Ti)))
+            # needs no solver: report it before any size cap can turn the case into a skip
+            base.update(outcome="violation", signature="C25/trial-count", nontrivial=True,
+                        detail="Nest has %d trials, outer %d x inner %d ; design=%s" % (Tn, To, Ti, dast.describe(ast)))
+            return base
         try:
             with common.time_limit(15):
                 ro, xo = exhaust(w, bo, 60)
